@@ -59,6 +59,28 @@ inductive Val
   | list (vs : List Val)
 deriving Repr, Inhabited
 
+/-! Boolean equality of value trees (the type is nested, `DecidableEq` is not
+    derivable); used by the driver-independent tests (`decide +kernel` examples). -/
+mutual
+def Val.beq : Val → Val → Bool
+  | .prim l d, .prim l' d' => l == l' && d == d'
+  | .atom a l d, .atom a' l' d' => a == a' && l == l' && d == d'
+  | .tags t, .tags t' => t == t'
+  | .seq fs, .seq fs' => Val.beqOpts fs fs'
+  | .choice i v, .choice i' v' => i == i' && Val.beq v v'
+  | .list vs, .list vs' => Val.beqList vs vs'
+  | _, _ => false
+def Val.beqOpts : List (Option Val) → List (Option Val) → Bool
+  | [], [] => true
+  | none :: a, none :: b => Val.beqOpts a b
+  | some x :: a, some y :: b => Val.beq x y && Val.beqOpts a b
+  | _, _ => false
+def Val.beqList : List Val → List Val → Bool
+  | [], [] => true
+  | x :: a, y :: b => Val.beq x y && Val.beqList a b
+  | _, _ => false
+end
+
 /-- how `Sequence.encode/decode`, `Choice.encode/decode` and the list loops
     classify an element class -/
 inductive Kind
